@@ -84,7 +84,7 @@ def diff(ctx, name, lines, impl_out, model_out, describe=None):
     return n
 
 
-from checks import c02b_flip, c02b_pn, c02b_prot  # noqa: E402
+from checks import c02b_flip, c02b_ku, c02b_pn, c02b_prot  # noqa: E402
 
 
 def run(ctx, tier, r=None):
@@ -94,11 +94,17 @@ def run(ctx, tier, r=None):
     c02b_prot.section_packet_protection(ctx, tier, r)
     c02b_prot.section_retry(ctx, tier, r)
     c02b_prot.section_live_sequences(ctx, tier, r)
+    c02b_ku.section_key_update(ctx, tier, r)
     c02b_pn.section_pn_state(ctx, tier, r)
     c02b_flip.section_bitflip(ctx, tier, r)
 
 
 def replay(path):
+    import json
+    rec = json.load(open(path))
+    for rp in [rec.get("replay") or {}] + [b for b in rec.get("broken", []) if isinstance(b, dict)]:
+        if rp.get("kind") == "ku-pair" or rp.get("correspondence") == "c02-keyupdate-pair":
+            return c02b_ku.replay(rp)
     return c02b_pn.replay(path)
 
 
@@ -142,6 +148,6 @@ RULE = (
     "payload sizes 0..max, every case decrypted by the peer context and by the Lean/independent pipeline, plus a "
     "single-bit alteration of each.  bit-flip oracle: every datagram of recorded handshakes (3 suites x 2 "
     "versions, with Retry) and post-handshake flights before/after a key update; quick = every header byte "
-    "^0x01/^0x80/^0xff + PRNG sample of bit positions, thorough = every bit; plus, with FRESH endpoints per alteration (one altered packet first, then the genuine datagram, then the handshake must complete as in the control run): every header byte (first byte, version, DCID, SCID, token, length, pn) ^0x01/^0x80 of the first client datagram at a fresh server (v1, v2), of the first server datagram at the client and of a Retry; and every decrypt attempt of a first-flight server must use Initial keys derived from that packet's own DCID (tie of RecvGate.serverInit).  LIVE objects: per suite, apply/remove/encrypt/decrypt SEQUENCES on one HeaderProtection / CryptoContext per key (samples equal, one byte apart at each of the 16 positions, bytes 0..3 only, bytes 4..15 only; genuine right after an altered copy), each call compared with the independent implementation.  LEAD alterations: in every scenario, before every datagram exactly ONE altered copy of each packet (the altered byte rotating over the 16 sample bytes and 4 pn bytes so that every position hits 1-RTT packets of every suite), immediately followed by the genuine datagram, in which the same packets must authenticate as in the control run.  PACKET-NUMBER STATE: space.expected_packet_number read after every receive_datagram and compared with the compiled AQ.PnSpace model and with largest+1 (adversarial sim runs with reordering/duplication/loss; an independent RFC 9001 sender keyed with the live 1-RTT secret: forward jump, 200 late packets, then 1-byte in-order numbers, both edges of the 1- and 2-byte windows, 3-/4-byte numbers, altered copy, duplicate; thorough adds 33000 late packets then 2-byte in-order numbers) — every genuine packet inside the window must be accepted.  Non-trivial = a case whose packet "
+    "^0x01/^0x80/^0xff + PRNG sample of bit positions, thorough = every bit; plus, with FRESH endpoints per alteration (one altered packet first, then the genuine datagram, then the handshake must complete as in the control run): every header byte (first byte, version, DCID, SCID, token, length, pn) ^0x01/^0x80 of the first client datagram at a fresh server (v1, v2), of the first server datagram at the client and of a Retry; and every decrypt attempt of a first-flight server must use Initial keys derived from that packet's own DCID (tie of RecvGate.serverInit).  LIVE objects: per suite, apply/remove/encrypt/decrypt SEQUENCES on one HeaderProtection / CryptoContext per key (samples equal, one byte apart at each of the 16 positions, bytes 0..3 only, bytes 4..15 only; genuine right after an altered copy), each call compared with the independent implementation.  LEAD alterations: in every scenario, before every datagram exactly ONE altered copy of each packet (the altered byte rotating over the 16 sample bytes and 4 pn bytes so that every position hits 1-RTT packets of every suite), immediately followed by the genuine datagram, in which the same packets must authenticate as in the control run.  PACKET-NUMBER STATE: space.expected_packet_number read after every receive_datagram and compared with the compiled AQ.PnSpace model and with largest+1 (adversarial sim runs with reordering/duplication/loss; an independent RFC 9001 sender keyed with the live 1-RTT secret: forward jump, 200 late packets, then 1-byte in-order numbers, both edges of the 1- and 2-byte windows, 3-/4-byte numbers, altered copy, duplicate; thorough adds 33000 late packets then 2-byte in-order numbers) — every genuine packet inside the window must be accepted.  KEY UPDATES: per suite x version two live CryptoPairs driven breadth-first through every interleaving (depth 8 quick / 9 thorough) of request / send / deliver-any-packet (reorder, duplicate, loss), requests enabled per RFC 9001 §6.1, one path per (reference state, observed state); every step compared with the compiled AQ.KeyUpdate model (ku.*) and with an RFC §6 reference, every packet opened by the independent implementation at the predicted generation.  Non-trivial = a case whose packet "
     "is accepted by the peer (round trip) or an altered packet that reached the decrypt decision."
 )
